@@ -53,7 +53,9 @@ class C10(Prop):
                 kind, vals = tc.gen_numeric_feature(rng, n, need_finite=True)
                 vals = [None if v is None else ("nan" if isinstance(v, float) and math.isnan(v) else ("inf" if v == math.inf else ("-inf" if v == -math.inf else v))) for v in vals]
                 c.update(fkind="numeric", kind=kind, feature=vals, xcontainer=rng.choice(["polars", "polars", "numpy"]))
-                if kind.startswith("int") and any(v is None for v in vals):
+                if (kind.startswith("int") and any(v is None for v in vals)) or kind == "float32_nan":
+                    # (a float32 column stays float32 only in the polars frame: the numpy matrix of this harness is float64, and
+                    # numpy's bin-width estimators give other edges for the float64 copy of the same numbers)
                     c["xcontainer"] = "polars"
             else:
                 dtype, vals, enum = tc.gen_string_feature(rng, n)
